@@ -23,7 +23,7 @@ Inductive obs :=
 | OPanic
 | OLens (o : lobs)
 | OLenses (l : list lobs)
-| OMorph (before_t : list Z) (pf pi : bool) (ds1 dt1 ds2 dt2 : list (Z * Z))
+| OMorph (before_t before_s2 : list Z) (pf pi : bool) (ds1 dt1 ds2 dt2 : list (Z * Z))
 | OMap (get0 get1 : Z) (same : bool) (after : list (string * Z)).
 
 Record case := mkc { c_shape : shape; c_req : req; c_obs : obs }.
@@ -104,7 +104,7 @@ Definition same_iso (x y : ciso) : bool := path_eqb (ci_spath x) (ci_spath y) &&
 
 Definition somes {A} (l : list (option A)) : list A := flat_map (fun o => match o with Some x => [x] | None => [] end) l.
 
-Definition morph_ok (sh : shape) (isos : list (option ciso)) (pf pi : bool) (ds1 dt1 ds2 dt2 : list (Z * Z)) : bool :=
+Definition morph_ok (sh : shape) (isos : list (option ciso)) (before_s2 : list Z) (pf pi : bool) (ds1 dt1 ds2 dt2 : list (Z * Z)) : bool :=
   let is := somes isos in
   match all_some (map (fun i => range_of sh (ci_spath i) (ci_A i)) is), all_some (map (fun i => range_of sh (ci_tpath i) (ci_A i)) is) with
   | Some srs, Some trs =>
@@ -115,8 +115,12 @@ Definition morph_ok (sh : shape) (isos : list (option ciso)) (pf pi : bool) (ds1
       match ds1 with [] => true | _ => false end &&                                   (* Forward never writes the source *)
       forallb (fun d => in_ranges trs (fst d) || ignorable sh tfoci (fst d)) dt1 &&      (* .. and only target foci *)
       list_eqb (fun a b => Z.eqb (fst a) (fst b) && Z.eqb (snd a) (snd b)) dt1 dt2 && (* Inverse never writes the target *)
-      forallb (fun d => in_ranges srs (fst d) || ignorable sh sfoci (fst d)) ds2 &&      (* .. and only source foci *)
-      (negb hyp || forallb (fun d => ignorable sh sfoci (fst d)) ds2)                 (* the round trip restores the source *)
+      forallb (fun d => in_ranges srs (fst d) || ignorable sh sfoci (fst d)) ds2 &&      (* .. and only source foci, of the structure it is given *)
+      (* the round trip s -> t -> s2 makes every source focus of s2 equal to that of s *)
+      (negb hyp ||
+       forallb (fun x => let '(r, i) := x in
+                         val_eqb (ci_A i) (slice_of (apply_diff before_s2 ds2) (fst r) (snd r)) (slice_of (sh_before sh) (fst r) (snd r)))
+               (zip srs is))
   | _, _ => false
   end.
 
@@ -145,7 +149,7 @@ Definition oracle (c : case) : bool :=
                   | false, Some _ => false | _, _ => true end
       | None => false
       end
-  | RMorph isos, OMorph _ pf pi ds1 dt1 ds2 dt2 => morph_ok sh isos pf pi ds1 dt1 ds2 dt2
+  | RMorph isos, OMorph _ bs2 pf pi ds1 dt1 ds2 dt2 => morph_ok sh isos bs2 pf pi ds1 dt1 ds2 dt2
   | RMapKey init key v, OMap g0 g1 same after => map_ok init key v g0 g1 same after
   | _, _ => false
   end.
